@@ -71,7 +71,7 @@ impl Params {
         Params {
             pos: *rng.pick(&e),
             neg: *rng.pick(&e),
-            strat: *rng.pick(&[0.0, 0.5, 1.0, 2.0, 3.0]),
+            strat: *rng.pick(&[0.0, 0.5, 1.0, 2.0, 3.0, 30.0, 1e3]),
             nopos: *rng.pick(&w),
         }
     }
@@ -844,6 +844,21 @@ pub fn c04(ctx: &mut Ctx) -> String {
 // C05
 
 pub fn c05(ctx: &mut Ctx) -> String {
+    // the edge of what `RegretParams::new` accepts: huge averaging exponents on deep own ladders
+    // (the average-strategy accumulators then live among the subnormal doubles)
+    for i in 0..(if ctx.thorough { 120u64 } else { 24 }) {
+        if ctx.out_of_time() {
+            break;
+        }
+        let t = ladder(&mut ctx.rng, 24 + (i % 8) as u32);
+        let params = Params { pos: 1.5, neg: 0.0, strat: *ctx.rng.pick(&[1e3, 300.0, 30.0]), nopos: INF };
+        let method = ["F", "S", "E"][(i % 3) as usize];
+        let (iters, thr) = *ctx.rng.pick(&[(1u64, 0.0), (2, 0.0), (5, INF), (3, 0.0)]);
+        let seed = ctx.rng.next() >> 12;
+        let cfg = Cfg { method: method.into(), params, iters, thr, threads: *ctx.rng.pick(&[1usize, 2]), target: None, seed };
+        ctx.stat("family_ladder_huge_exponent");
+        case_solve(ctx, &solve_case(&t, &cfg, &["wellformed"]));
+    }
     let n = if ctx.thorough { 12000 } else { 900 };
     for i in 0..n {
         if ctx.out_of_time() {
